@@ -169,6 +169,9 @@ func (e evmHook) StaticCall(rc *actypes.RunnerContext, req *actypes.StaticCallRe
 		defer h.EVM.AspectCall()
 	}
 	h.InAspect++
+	// like any entry into the EVM from the host, the destination is warm (what Prepare does
+	// for the transaction's own destination); the EIP-2929 gas functions rely on it
+	h.EVM.StateDB.AddAddressToAccessList(to)
 	ret, left, err := h.EVM.StaticCall(rc.Ctx, avm.AccountRef(from), to, req.Data, gas)
 	h.InAspect--
 	es := errStr(err)
